@@ -185,8 +185,8 @@ func (scanStrategy) PersistEntity(boltz.Entity, *boltz.PersistContext) {}
 
 // symbol layout helpers (variant bit 0: symbol name != bucket key; bit 1: some symbols under a prefix path)
 func (s *ScanSchema) keyOf(field string) string {
-	if s.Variant&1 != 0 && (field == "sa" || field == "ia") {
-		return field + "_k"
+	if s.Variant&1 != 0 && (field == "sa" || field == "ia" || field == "tags") {
+		return field + "_k" // (the tag map as well: its symbol name differs from the bucket it lives in)
 	}
 	return field
 }
@@ -221,7 +221,7 @@ func NewScanSchema(variant int) *ScanSchema {
 	p.AddFkSymbol("home", s.Places)
 	p.AddFkSetSymbol("places", s.Places)
 	p.AddFkSetSymbol("peers", p)
-	p.AddMapSymbol("tags", ast.NodeTypeAnyType, "tags", s.prefixOf("tags")...)
+	p.AddMapSymbol("tags", ast.NodeTypeAnyType, s.keyOf("tags"), s.prefixOf("tags")...)
 	p.AddEntitySymbol(boltz.NewStringFuncSymbol(p, "fx", s.fx))
 	p.AddEntitySymbol(boltz.NewBoolFuncSymbol(p, "bx", s.bx))
 
@@ -323,7 +323,7 @@ func (s *ScanSchema) Write(db *bbolt.DB, d *Dataset) error {
 				if pre := s.prefixOf("tags"); len(pre) > 0 {
 					target = b.GetOrCreatePath(pre...)
 				}
-				tb := target.GetOrCreatePath("tags")
+				tb := target.GetOrCreatePath(s.keyOf("tags"))
 				keys := make([]string, 0, len(pe.Tags))
 				for k := range pe.Tags {
 					keys = append(keys, k)
